@@ -1,8 +1,9 @@
 ---------------------------- MODULE ExportProto ----------------------------
 (* Writes the wire tables of Proto.tla to proto.json for the harness.      *)
-EXTENDS Proto, Json, TLC
+EXTENDS Proto, IsoFormat, Json, TLC
 VARIABLE x
 ASSUME JsonSerialize("proto.json", ProtoTable)
+ASSUME JsonSerialize("iso.json", IsoTable)
 Init == x = 0
 Next == UNCHANGED x
 =============================================================================
